@@ -302,3 +302,52 @@ func VerifC02Pending() {
 		rt.Reach("genuine")
 	}
 }
+
+// VerifC02Rebuild: a refused change whose parent lies before the in-memory tree's root (the tree was reduced to
+// a later snapshot), so that adding it goes through a rebuild from storage: the refusal leaves heads,
+// iteration and storage exactly as they were, and the change is not attached.
+func VerifC02Rebuild() {
+	b := newVBuilder()
+	ids := rt.Atoms(6, 2)
+	b.nextIds = ids[1:4]
+	ctx := context.Background()
+	r, err := vNewReplica(ids[0], b, "w")
+	rt.Assert(err == nil, "open")
+	for i, snap := range []bool{false, true, false} {
+		_, err = r.ot.AddContent(ctx, SignableChangeContent{Data: []byte("d"), Key: &vTreeKey{id: "w"}, IsSnapshot: snap, Timestamp: 1, DataType: "t"})
+		rt.Assert(err == nil, "setup-add")
+		_ = i
+	}
+	rt.Assert(r.ot.tree.RootId() == ids[2], "tree-reduced-to-the-snapshot")
+	// the rebuild validates the whole tree, the root included: give the root an author as a real root has
+	b.table[ids[0]].Identity = &vTreePub{id: "w"}
+	b.table[ids[0]].AclHeadId = "acl0"
+	r.ot.validator = NewTreeValidatorWithContentCheck(false, false, func(c *Change, a list.AclList) error {
+		if len(c.Data) > 0 && c.Data[0] == 'X' {
+			return errors.New("verif: refused content")
+		}
+		return nil
+	})
+	bad := rt.Bool()
+	data := []byte("ok")
+	if bad {
+		data = []byte("X")
+	}
+	x := b.register(&Change{Id: ids[4], PreviousIds: []string{ids[0]}, SnapshotId: ids[0], AclHeadId: "acl0", Identity: &vTreePub{id: "w"}, Data: data}, 1)
+	preHeads := append([]string{}, r.ot.Heads()...)
+	preSeq := vSeqIds(r.ot.tree)
+	preStored := len(r.store.changes)
+	_, err = r.ot.AddRawChanges(ctx, RawChangesPayload{NewHeads: []string{ids[4]}, RawChanges: []*treechangeproto.RawTreeChangeWithId{x}})
+	if bad {
+		rt.Assert(err != nil, "refused-change-is-reported")
+		rt.Assert(vSameSet(r.ot.Heads(), preHeads), "rejected-change-leaves-heads")
+		seq := vSeqIds(r.ot.tree)
+		rt.Assert(len(seq) == len(preSeq), "rejected-change-leaves-iteration")
+		rt.Assert(!r.ot.HasChanges(ids[4]), "rejected-change-not-attached")
+		rt.Assert(len(r.store.changes) == preStored, "rejected-change-leaves-storage")
+		rt.Reach("rejected")
+	} else {
+		rt.Assert(err == nil && r.ot.HasChanges(ids[4]), "valid-change-behind-the-root-is-attached")
+		rt.Reach("accepted")
+	}
+}
